@@ -216,6 +216,14 @@ class Ctx:
         return found
 
 
+def large_inputs(ctx, n=None):
+    """driver-chosen inputs beyond the exhaustively explored sizes (long chains, deep nests, wide groups, long allowed lists
+    with repeats, long names and blank runs), trace-validated"""
+    n = n or (600 if ctx.tier == "thorough" else 120)
+    ctx.drive("large", "large", n)
+    return ctx.validate_trace("large")
+
+
 def sessions(ctx, n=None):
     """histories of related calls (same ids in every spelling, through all three functions), every event trace-validated: a result
     that depends on earlier calls is rejected where it shows.  Two processes: the ids listed at several table positions are walked
